@@ -226,6 +226,7 @@ pub open spec fn n_values(ft: FieldType) -> int {
 
 impl DeclareName {
 //@extract method bigtools/src/bed/autosql.rs parse "impl DeclareName"
+//@rule R16
 //@rule R6
 //@rule R8
 //@sub /parser::Parser<'_>/ => VParser
@@ -251,6 +252,7 @@ impl DeclareName {
 
 impl FieldType {
 //@extract method bigtools/src/bed/autosql.rs try_parse "impl FieldType"
+//@rule R16
 //@rule R6
 //@rule R8
 //@sub /parser::Parser<'_>/ => VParser
@@ -305,6 +307,7 @@ impl FieldType {
 }
 
 //@extract fn bigtools/src/bed/autosql.rs parse_field_list
+//@rule R16
 //@rule R6
 //@rule R8
 //@sub /parser::Parser<'_>/ => VParser
@@ -347,6 +350,7 @@ impl FieldType {
 //@end
 
 //@extract fn bigtools/src/bed/autosql.rs parse_declaration
+//@rule R16
 //@rule R6
 //@rule R8
 //@sub /parser::Parser<'_>/ => VParser
@@ -373,6 +377,7 @@ impl FieldType {
 //@end
 
 //@extract fn bigtools/src/bed/autosql.rs parse_declaration_list
+//@rule R16
 //@rule R6
 //@rule R8
 //@sub /parser::Parser<'_>/ => VParser
@@ -411,6 +416,7 @@ impl FieldType {
 //@end
 
 //@extract fn bigtools/src/bed/autosql.rs parse_autosql
+//@rule R16
 //@rule R6
 //@rule R8
 //@sub /parser::Parser::of/ => VParser::of
